@@ -94,4 +94,68 @@ theorem c08_exact_size (e : BitmapEvent) (o : List UInt8) (h : decompress e = .o
   rw [h] at this
   exact this
 
+/-! ### allocation: "no more than a small multiple of the output size" -/
+
+/-- every buffer `decompress` requests is at most the size of the output (width × height × 4) -/
+theorem c08_alloc_each (e : BitmapEvent) : ∀ a ∈ allocTrace e, a ≤ e.width * e.height * 4 := by
+  intro a ha
+  unfold allocTrace at ha
+  simp only at ha
+  split at ha
+  · simp at ha; omega
+  · split at ha
+    · split at ha
+      · split at ha <;> simp at ha <;> omega
+      · split at ha <;> simp at ha <;> omega
+    · simp at ha
+
+/-- all buffers together: at most twice the output size, whatever the event — the data
+    length, the declared geometry and the compression flag do not matter -/
+theorem c08_alloc_total (e : BitmapEvent) : (allocTrace e).sum ≤ 2 * (e.width * e.height * 4) := by
+  unfold allocTrace
+  simp only
+  split
+  · simp; omega
+  · split
+    · split
+      · split <;> simp <;> omega
+      · split <;> simp <;> omega
+    · simp
+
+theorem rgb565_not_err (buf : Array UInt16) (w h : Nat) (s : String) : rgb565torgb32 buf w h ≠ .err s := by
+  unfold rgb565torgb32; split <;> simp
+
+/-- a failing event never costs more than one output-sized buffer -/
+theorem c08_alloc_failed (e : BitmapEvent) (s : String) (h : decompress e = .err s) :
+    (allocTrace e).sum ≤ e.width * e.height * 4 := by
+  unfold allocTrace
+  simp only
+  by_cases h32 : e.bpp = 32
+  · simp [h32]
+  · by_cases h16 : e.bpp = 16
+    · have h1632 : ¬ (16 : Nat) = 32 := by decide
+      simp only [h32, h16, h1632, if_false, if_true]
+      unfold decompress at h
+      simp only [h16, h1632, if_false, if_true] at h
+      by_cases hc : e.compress = true
+      · simp only [hc, if_true] at h ⊢
+        cases hb : Rle16.decompress e.data e.width e.height (Array.replicate (e.width * e.height * 2) 0) with
+        | ok buf =>
+          exfalso
+          rw [hb] at h
+          simp only [Outcome.bind_ok] at h
+          exact rgb565_not_err _ _ _ _ h
+        | err _ => simp; omega
+        | panic _ => simp; omega
+      · simp only [hc, Bool.false_eq_true, if_false] at h ⊢
+        by_cases hl : e.data.size < e.width * e.height * 2
+        · simp [hl]
+        · exfalso
+          simp only [hl, if_false] at h
+          exact rgb565_not_err _ _ _ _ h
+    · simp [h32, h16]
+
+example : allocTrace ⟨2, 2, 16, true, #[0xFD, 0x01, 0x61, 0x34, 0x12, 0x01]⟩ = [16, 16] := by decide +kernel
+example : allocTrace ⟨64, 64, 32, false, #[]⟩ = [16384] := by decide +kernel
+
 end Rdp.Codec
